@@ -42,6 +42,9 @@ def run_check(diff, pid, tier='quick', seed=1):
     assert sh('git -C /repo status --porcelain')[1].strip() == '', 'repo not clean'
     rc, out = sh(['git', '-C', '/repo', 'apply', diff])
     assert rc == 0, out
+    # the evidence file of the property describes the UNCHANGED tree: keep it aside while the change is applied
+    ev = os.path.join(ROOT, 'evidence', f'{pid}.json')
+    keep = open(ev).read() if os.path.exists(ev) else None
     try:
         t0 = time.time()
         rc, out = sh([PY, 'tools/check.py', pid, '--tier', tier], cwd=ROOT, env=dict(os.environ, VERIF_SEED=str(seed)), timeout=3000)
@@ -50,6 +53,8 @@ def run_check(diff, pid, tier='quick', seed=1):
     finally:
         sh('git -C /repo checkout -- .')
         sh('git -C /repo clean -fdq smartquery')
+        if keep is not None:
+            open(ev, 'w').write(keep)
 
 
 def main():
